@@ -107,7 +107,29 @@ impl Check for C19 {
             };
             Case { sc, drop_after: 0, run_tail: false, world: Some(wc), codec: None }
         });
-        prop_oneof![4 => pair, 1 => pair_big, 2 => world, 1 => codec].boxed()
+        // one burst of a thousand and more tiny Reliable / Persistent packets over a link with 50-150 ms of latency, so
+        // that well over a thousand fragments wait for their acknowledgement at once (housekeeping that only starts
+        // at such queue lengths), dropped at a generated point or run to the end
+        let burst = (scenario_strategy(&GenParams { max_ticks: 1, max_sends: 1, faults: false, tail: true, max_fates: 1, small_windows: false, tight_alloc: false, ..GenParams::default() }), 1100usize..tier.pick(3500, 6000), prop_oneof![Just(2u8), Just(3u8)], 4u32..9, (50_000u32..150_000, 50_000u32..150_000), prop_oneof![2 => Just(u16::MAX), 3 => any::<u16>()], prop_oneof![Just(16_000u64), Just(50_000u64)], 30usize..120)
+            .prop_map(|(mut sc, n, mode, size, (l0, l1), drop_after, dt_us, idle)| {
+                let sends: Vec<SendSpec> = (0..n).map(|i| SendSpec { ch: (i % 3) as u8, mode, size }).collect();
+                let mut ticks = vec![Tick { dt_us, acts: [EpAct { step: true, sends, flushes: 1 }, EpAct { step: true, sends: Vec::new(), flushes: 1 }] }];
+                for _ in 0..idle {
+                    ticks.push(Tick { dt_us, acts: [EpAct { step: true, sends: Vec::new(), flushes: 0 }, EpAct { step: true, sends: Vec::new(), flushes: 0 }] });
+                }
+                sc.ticks = ticks;
+                sc.links[0].latency_us = l0;
+                sc.links[1].latency_us = l1;
+                for d in sc.dirs.iter_mut() {
+                    d.pkt_win_log2 = 12;
+                    d.frm_win_log2 = 12;
+                    d.bw_limit = u32::MAX;
+                    d.alloc_limit = u32::MAX;
+                }
+                sc.normalize();
+                Case { sc, drop_after, run_tail: true, world: None, codec: None }
+            });
+        prop_oneof![8 => pair, 2 => pair_big, 4 => world, 2 => codec, 1 => burst].boxed()
     }
 
     fn cases(&self, tier: Tier) -> u64 {
